@@ -3,7 +3,7 @@
    Model: model/Tuner.v (tuning loop + generic TrialBackend bookkeeping); the scheduler, the
    workers ("world"), the poll order, the clock and the user criterion are ARBITRARY oracles [o]:
    every theorem is for all parameters, all oracles and all fuel (= every prefix of every run). *)
-From Verif Require Import model.Base model.Tuner proofs.TunerProofs proofs.TunerComposeProofs.
+From Verif Require Import model.Base model.Tuner proofs.TunerProofs proofs.TunerComposeProofs proofs.TunerPolledProofs.
 
 (* --- budget ---------------------------------------------------------------
    At every loop-iteration boundary of every run (run_loop with any fuel stops at such a boundary
@@ -171,12 +171,39 @@ Example c01_discipline_example_failed_then_resumed :
   existsb (fun e => match e with EBResume 0 None => true | _ => false end) (s_trace st) = true.
 Proof. vm_compute. repeat split. Qed.
 
-(* NOTE (outside C01's quantifier: start_jobs_without_delay=False, model [run_b] / [schedule_new_tasks_busy],
-   tied to the code by the same correspondence driver): DESIGN section 7 item 10 is real. When the backend reports
-   fewer busy trials than the tuner lists as running, _schedule_new_tasks REBINDS its local name
-   running_trials_ids; the trial started in that call (trial 2 below) is never added to the set the loop polls:
-   it is started (EBStart 2), is busy in the backend (EBBusy [1; 2]) but no poll ever lists it.
-   Replay on the real code: findings/C01-sjwd-false-started-trial-never-polled.json. *)
+(* --- every started trial stays in the polled set until the loop observed the end of its run ---------------
+   At every iteration boundary and at every exit of the loop without exception, for BOTH settings of
+   start_jobs_without_delay ([run_loop]: True, [run_loop_b]: False, /repo 1516ffc): a trial whose per-trial
+   projection is in the phase running/reporting (started or resumed, end of the run not yet told to the scheduler)
+   is in running_trials_ids, and the next poll lists it ([poll_order] always covers the running set).
+   This is the statement the code BEFORE 1516ffc violated for start_jobs_without_delay=False (F-C02-2: the local
+   name running_trials_ids was rebound, trials started in that call were never polled). *)
+Theorem c01_started_trials_stay_polled :
+  forall prm o fuel st x,
+    run_loop prm o fuel = (st, x) \/ run_loop_b prm o fuel = (st, x) -> x = LFuel \/ x = LExit None ->
+    forall t, phase_of t (s_trace st) = PR ->
+      In t (s_running st) /\ In t (poll_order (s_running st) (o_ord o (s_np st))).
+Proof.
+  intros prm o fuel st x H Hx t Ht.
+  assert (HP : PInv prm st).
+  { destruct H as [H|H]; [apply (run_loop_polled prm o fuel st x H)|apply (run_loop_b_polled prm o fuel st x H)]; exact Hx. }
+  destruct HP as (_ & _ & HR). split; [apply HR; exact Ht|apply poll_lists_running; apply HR; exact Ht].
+Qed.
+Print Assumptions c01_started_trials_stay_polled.
+
+(* worker budget and legal life cycle also for start_jobs_without_delay=False (outside the property's quantifier,
+   proved because the model has it): at every iteration boundary and every exit of the loop *)
+Theorem c01_budget_lifecycle_start_jobs_with_delay :
+  forall prm o fuel st x, run_loop_b prm o fuel = (st, x) ->
+    (NoDup (s_running st) /\ (length (s_running st) <= n_workers prm)%nat /\
+     (forall t, (t < s_ntrials st)%nat -> active (b_w (s_bt st t)) = true -> In t (s_running st))) /\
+    forall t, phase_of t (s_trace st) <> PBad.
+Proof. intros prm o fuel st x H. exact (proj1 (run_loop_b_polled prm o fuel st x H)). Qed.
+Print Assumptions c01_budget_lifecycle_start_jobs_with_delay.
+
+(* regression example for F-C02-2 (input of findings/C01-sjwd-false-started-trial-never-polled.json): the backend
+   reports one busy trial while two are listed as running; the code now counts max(1, 2) = 2 busy workers and sleeps;
+   every trial that is started is polled. *)
 Definition ex_b_oracles : oracles :=
   {| o_world := fun n => nth n [([], WInProgress); ([], WInProgress);
                                ([{| r_metric := 1; r_cost := 1 # 2; r_ts := 4 |}], WCompleted); ([], WInProgress)]%Q ([], WInProgress);
@@ -184,11 +211,11 @@ Definition ex_b_oracles : oracles :=
      o_dec := fun _ => CONTINUE;
      o_sug := fun n => nth n [SStart 1 None; SStart 2 None; SStart 3 None] SNothing;
      o_clk := fun _ => 0%Q; o_ext := fun n => Nat.leb 5 n |}.
-Example c01_note_sjwd_false_started_trial_never_polled :
+Example c01_example_start_jobs_with_delay :
   let '(st, out) := run_b ex_params ex_b_oracles 10 in
   out = Normal /\
-  existsb (fun e => match e with EBStart 2%nat _ _ => true | _ => false end) (s_trace st) = true /\
-  existsb (fun e => match e with EBBusy [1%nat; 2%nat] => true | _ => false end) (s_trace st) = true /\
-  forallb (fun e => match e with EBFetch l => negb (mem_nat 2%nat l) | _ => true end) (s_trace st) = true /\
-  count_ev (fun e => match e with EBFetch _ => true | _ => false end) (s_trace st) = 5%nat.
+  existsb (fun e => match e with EBBusy [1%nat] => true | _ => false end) (s_trace st) = true /\
+  forallb (fun e => match e with
+                    | EBStart t _ _ => existsb (fun e' => match e' with EBFetch l => mem_nat t l | _ => false end) (s_trace st)
+                    | _ => true end) (s_trace st) = true.
 Proof. vm_compute. repeat split. Qed.
